@@ -481,19 +481,29 @@ theorem origin_eq {seq : Str} (h : seq ≠ []) : oLines 0 (chunks 60 seq) = GbLa
 
 theorem locusLine_eq (x : Sequence) (hm : (molOf x.metadata.locus.moleculeType).text = x.metadata.locus.moleculeType)
     (ht : x.metadata.locus.circular ≠ x.metadata.locus.linear)
-    (hd : PolyVerif.GbLayout.divisionCodes.getD (PolyVerif.GbLayout.divisionCodes.idxOf x.metadata.locus.genbankDivision) []
-            = x.metadata.locus.genbankDivision)
-    (hl : x.metadata.locus.sequenceLength = Str.ofNat x.sequence.length) :
-    PolyVerif.GbLayout.locusLine (toRec x).locus x.sequence.length (polyLayout x) = locusLine x.metadata.locus := by
+    (hl : x.metadata.locus.sequenceLength = Str.ofNat x.sequence.length)
+    (hdv : x.metadata.locus.genbankDivision ≠ []) (hdt : x.metadata.locus.modificationDate ≠ []) :
+    PolyVerif.GbLayout.locusLine (toRec x).locus (polyLayout x) = locusLine x.metadata.locus := by
+  -- (w-gbparse, C01 widening) C01's LOCUS line is now a token list; with every field present it is the old shape
   have e0 : "LOCUS       ".toList = ['L', 'O', 'C', 'U', 'S'] ++ spaces 7 := by decide
   have e1 : " bp".toList = [' ', 'b', 'p'] := by decide
+  have hmol1 : x.metadata.locus.moleculeType ≠ [] ∧ ' ' ∉ x.metadata.locus.moleculeType := by
+    rw [← hm]; cases molOf x.metadata.locus.moleculeType <;> decide
+  have hlen1 : x.metadata.locus.sequenceLength ≠ [] := by
+    rw [hl]; exact PolyVerif.Lemmas.Genbank.ofNat_ne_nil _
+  have htopo : (toRec x).locus.topo = some (if x.metadata.locus.circular = true then PolyVerif.GbLayout.Topology.circular
+      else PolyVerif.GbLayout.Topology.linear) := by
+    show (if x.metadata.locus.circular = true then some PolyVerif.GbLayout.Topology.circular
+        else some PolyVerif.GbLayout.Topology.linear) = _
+    cases x.metadata.locus.circular <;> rfl
   have hshape : (if x.metadata.locus.circular = true then PolyVerif.GbLayout.Topology.circular
       else PolyVerif.GbLayout.Topology.linear).text = shapeOf x.metadata.locus := by
     unfold shapeOf
     cases hc : x.metadata.locus.circular <;> cases hlin : x.metadata.locus.linear <;> simp_all <;> decide
-  unfold PolyVerif.GbLayout.locusLine locusLine toRec polyLayout PolyVerif.GbLayout.gap
-  simp only [List.getD_cons_zero, List.getD_cons_succ, hm, hd, ← hl, hshape, e0, e1, Str.spaces, spaces,
-    List.append_assoc]
+  rw [PolyVerif.Lemmas.Genbank.locusLine_full (toRec x).locus (polyLayout x) _ hlen1 hmol1 htopo hdv hdt, hshape]
+  unfold locusLine toRec polyLayout PolyVerif.GbLayout.gap
+  simp only [List.getD_cons_zero, List.getD_cons_succ, e0, e1, Str.spaces, spaces, List.append_assoc,
+    List.replicate_zero, List.append_nil]
 
 /-! ### the whole record -/
 
@@ -506,7 +516,7 @@ theorem layout_plain (r : PolyVerif.GbLayout.GbRec) (ℓ : PolyVerif.GbLayout.Re
     (h1 : ℓ.omitDefinition = false) (h2 : ℓ.omitAccession = false) (h3 : ℓ.omitVersion = false)
     (h4 : ℓ.omitKeywords = false) (h5 : ℓ.omitSource = false) :
     PolyVerif.GbLayout.layout r ℓ =
-      [PolyVerif.GbLayout.locusLine r.locus r.seq.length ℓ]
+      [PolyVerif.GbLayout.locusLine r.locus ℓ]
       ++ PolyVerif.GbLayout.block ['D', 'E', 'F', 'I', 'N', 'I', 'T', 'I', 'O', 'N'] r.definition ℓ.definition
       ++ PolyVerif.GbLayout.block ['A', 'C', 'C', 'E', 'S', 'S', 'I', 'O', 'N'] r.accession ℓ.accession
       ++ PolyVerif.GbLayout.block ['V', 'E', 'R', 'S', 'I', 'O', 'N'] r.version ℓ.version
@@ -542,7 +552,7 @@ open PolyVerif.Spec.GbStrict (wfSeq wfLayout singleSpaced wfOther sortedEntries 
 theorem lines_build_eq_layout (x : Sequence) (h : covered x = true) :
     lines (build x MapOrders.id) = PolyVerif.GbLayout.layout (toRec x) (polyLayout x) := by
   simp only [covered, Bool.and_eq_true, beq_iff_eq, bne_iff_ne, ne_eq] at h
-  obtain ⟨⟨⟨⟨⟨⟨hwf, hmol⟩, htopo⟩, hdiv⟩, hlen⟩, hfit⟩, _⟩ := h
+  obtain ⟨⟨⟨⟨⟨⟨⟨⟨hwf, hmol⟩, htopo⟩, hdiv⟩, hlen⟩, hdvne⟩, hdtne⟩, hfit⟩, _⟩ := h
   have hlay : wfLayout x = true := by
     simp only [wfSeq, Bool.and_eq_true] at hwf
     exact hwf.1.1.1.1
@@ -586,7 +596,7 @@ theorem lines_build_eq_layout (x : Sequence) (h : covered x = true) :
     exact header_glue _ _ _ _ _ _ _ _
   rw [build_lines x hlay, hhdr, featsLines_eq _ hftype, origin_eq hne, list_glue]
   rw [layout_plain (toRec x) (polyLayout x) rfl rfl rfl rfl rfl rfl]
-  rw [← locusLine_eq x hmol htopo hdiv hlen, k1, k2, k3, k4, k5, k6, k7, k8, k9]
+  rw [← locusLine_eq x hmol htopo hlen hdvne hdtne, k1, k2, k3, k4, k5, k6, k7, k8, k9]
   rfl
 
 /-- the parser model, run on what `Build` writes, returns what C01's abstract record states -/
@@ -623,15 +633,15 @@ open PolyVerif.Spec.GbStrict (wfSeq wfRefIndex) in
 theorem approx_covered (x : Sequence) (h : covered x = true) :
     approx x (PolyVerif.GbLayout.toSequence (toRec x)) = true := by
   simp only [covered, Bool.and_eq_true, beq_iff_eq, bne_iff_ne, ne_eq] at h
-  obtain ⟨⟨⟨⟨⟨⟨hwf, hmol⟩, htopo⟩, hdiv⟩, hlen⟩, _⟩, _⟩ := h
+  obtain ⟨⟨⟨⟨⟨⟨⟨⟨hwf, hmol⟩, htopo⟩, hdiv⟩, hlen⟩, _⟩, _⟩, _⟩, _⟩ := h
   have hidx : wfRefIndex 0 x.metadata.references = true := by
     simp only [wfSeq, Bool.and_eq_true] at hwf
     exact hwf.1.1.2
-  have hc : ((if x.metadata.locus.circular = true then PolyVerif.GbLayout.Topology.circular
-        else PolyVerif.GbLayout.Topology.linear) == PolyVerif.GbLayout.Topology.circular) = x.metadata.locus.circular := by
+  have hc : ((if x.metadata.locus.circular = true then some PolyVerif.GbLayout.Topology.circular
+        else some PolyVerif.GbLayout.Topology.linear) == some PolyVerif.GbLayout.Topology.circular) = x.metadata.locus.circular := by
     cases x.metadata.locus.circular <;> decide
-  have hl : ((if x.metadata.locus.circular = true then PolyVerif.GbLayout.Topology.circular
-        else PolyVerif.GbLayout.Topology.linear) == PolyVerif.GbLayout.Topology.linear) = x.metadata.locus.linear := by
+  have hl : ((if x.metadata.locus.circular = true then some PolyVerif.GbLayout.Topology.circular
+        else some PolyVerif.GbLayout.Topology.linear) == some PolyVerif.GbLayout.Topology.linear) = x.metadata.locus.linear := by
     cases hc' : x.metadata.locus.circular <;> cases hl' : x.metadata.locus.linear <;> simp_all <;> decide
   unfold approx PolyVerif.GbLayout.toSequence PolyVerif.GbLayout.toLocus toRec
   simp only [Bool.and_eq_true, beq_iff_eq, hmol, hdiv, hlen, hc, hl, refs_approx _ 0 hidx, feats_approx, and_true,
